@@ -120,6 +120,12 @@ def gen_cases(tier, rng):
     cases.append('H:f=48 ' + mv + 'file:%s env:%s argv:33 exp:reject kind:multi-across' % (A.hx('-v 1\n'), A.hx('-f 2')))
     cases.append('H:f=0 ' + mv + 'arg:arg-file:af0: xfile:%s:%s argv:2d2d6172672d66696c65,66312e7061,33 exp:b0=0;vi0=[1,2,3] kind:multi-across'
                  % (A.hx('f1.pa'), A.hx('-v 1 2')))
+    # separate values delivered through the file / the environment do not count for the cardinality
+    mvc = 'arg:v,values:vi0:multi/card=max~3 arg:n:i0: '
+    cases.append('H:f=32 ' + mvc + 'env:%s argv:2d76,33,34,35 exp:i0=7;vi0=[1,2,3,4,5] kind:multi-across' % A.hx('-n 7 -v 1 2'))
+    cases.append('H:f=32 ' + mvc + 'env:%s argv:2d76,33,34,35,36 exp:reject kind:multi-across' % A.hx('-n 7 -v 1 2'))
+    cases.append('H:f=16 ' + mvc + 'file:%s argv:2d76,33,34,35 exp:i0=0;vi0=[1,2,9,3,4,5] kind:multi-across' % A.hx('-v 1 2\n9\n'))
+    cases.append('H:f=32 ' + mvc + 'env:%s argv:34,35,36 exp:i0=0;vi0=[1,2,3,4,5,6] kind:multi-across' % A.hx('-v 1 2 3'))
     for nl in range(1, 4):
         for extra_line in ('', '# c\n', '\n'):
             content = '-v 1\n' + extra_line + ''.join('%d\n' % (k + 2) for k in range(nl))
